@@ -15,7 +15,7 @@ RULE = (
     "sample() call; distinct = its (kind,b,t,n,seed,n_chains,chain) tuple; non-trivial = t>1 or b>0 or n_chains>1"
 )
 ASSUMPTIONS = ["non-overlap of streams is decided on the first 4096 64-bit outputs of each stream (no shared value, no shared window)"]
-REQUIRED = {"schedules_on_a_model_with_both_base_classes": {"quick": 20, "thorough": 300}, "schedules_called_with_positional_arguments": {"quick": 40, "thorough": 600}, "cli_streams_checked": {"quick": 16, "thorough": 100}, "resets_compared_with_untouched_model": {"quick": 40, "thorough": 250}, "recorded_samples_rechecked": {"quick": 150, "thorough": 900}, "cli_schedules_checked": {"quick": 24, "thorough": 300}, "cli_schedules_with_zero_burnin": {"quick": 12, "thorough": 150}, "captures_at_log_level_DEBUG": {"quick": 30, "thorough": 150}, "schedules_checked": {"quick": 500, "thorough": 2000}, "stream_pairs_checked": {"quick": 200, "thorough": 2000}, "vi_checked": {"quick": 40, "thorough": 250}}
+REQUIRED = {"large_schedules_with_thin_above_256": {"quick": 4, "thorough": 16}, "schedules_given_as_numpy_integers": {"quick": 30, "thorough": 400}, "schedules_on_a_model_with_both_base_classes": {"quick": 20, "thorough": 300}, "schedules_called_with_positional_arguments": {"quick": 40, "thorough": 600}, "cli_streams_checked": {"quick": 16, "thorough": 100}, "resets_compared_with_untouched_model": {"quick": 40, "thorough": 250}, "recorded_samples_rechecked": {"quick": 150, "thorough": 900}, "cli_schedules_checked": {"quick": 24, "thorough": 300}, "cli_schedules_with_zero_burnin": {"quick": 12, "thorough": 150}, "captures_at_log_level_DEBUG": {"quick": 30, "thorough": 150}, "schedules_checked": {"quick": 500, "thorough": 2000}, "stream_pairs_checked": {"quick": 200, "thorough": 2000}, "vi_checked": {"quick": 40, "thorough": 250}}
 GRID = {"quick": (12, 5, 8), "thorough": (24, 7, 12)}
 
 
@@ -127,6 +127,12 @@ def run_shard(rec, tier, seed, shard, nshards):
 
                 m = type("CountingModelWithDirectSampling", (CountingModel, _VI), {"sample": lambda self, num_samples: [Tag(-1) for _ in range(num_samples)]})()
                 rec.count("schedules_on_a_model_with_both_base_classes")
+            if rng.random() < 0.25:
+                # the schedule as numpy integers (read from an array, a table cell, a parsed configuration)
+                ity = [np.int64, np.int32, np.uint16, np.intp][int(rng.integers(4))]
+                b, t = ity(b), ity(t)
+                rec.count("schedules_given_as_numpy_integers")
+                w["integer_type"] = ity.__name__
             if rng.random() < 0.3:
                 # every argument by position, in the documented order
                 res = sampling.sample(m, holder, sd, nch, ci, b, t)
@@ -137,9 +143,13 @@ def run_shard(rec, tier, seed, shard, nshards):
         except Exception as e:
             rec.violation("C17/schedule/raises", "sample raised %r" % (e,), w)
             continue
-        check_schedule("counting-model", m.log, [th.step for th in res.thetas], b, t, n, res, w)
+        check_schedule("counting-model", m.log, [th.step for th in res.thetas], int(b), int(t), n, res, w)
     for _ in range(3 if tier == "quick" else 12):
-        b, t, n = int(rng.choice([0, 1, 255, 256, 257, 1000, 3000])), int(rng.choice([1, 2, 7, 64, 100])), int(rng.choice([1, 2, 100, 256, 257, 1000]))
+        b, t, n = int(rng.choice([0, 1, 255, 256, 257, 1000, 3000])), int(rng.choice([1, 2, 7, 64, 100, 256, 257, 300, 1000])), int(rng.choice([1, 2, 100, 256, 257, 1000]))
+        if _ == 0:
+            t = int(rng.choice([257, 300, 1000]))  # a thinning interval beyond one byte / CPython's shared small integers
+        if t > 256:
+            rec.count("large_schedules_with_thin_above_256")
         if (b + n * t) > 120000:
             n = max(1, 120000 // t)
         m = CountingModel()
